@@ -36,14 +36,16 @@ FormRunV(c, e, r) ==
 FirstBad(vs) == IF \A k \in DOMAIN vs : vs[k] = "ok" THEN "ok"
                 ELSE vs[CHOOSE k \in DOMAIN vs : vs[k] # "ok" /\ \A m \in 1..(k - 1) : vs[m] = "ok"]
 FormsV(c, e) ==
-    IF {e.forms[k].form : k \in DOMAIN e.forms} # RegDataForms THEN "DataForms"
+    IF {e.forms[k].form : k \in DOMAIN e.forms}
+         # (IF c.ux = 0 /\ c.uy = 0 THEN RegDataForms ELSE {"float32", "fortran", "strided"}) THEN "DataForms"   \* integer arrays: base units only
     ELSE FirstBad([k \in DOMAIN e.forms |-> FormRunV(c, e, e.forms[k])])
 
 \* the SAME estimator object fitted again (after set_params(reg_W=...)) on other data of the same shapes: what it
 \* exposes and what it predicts must be those of the new fit -- nothing may survive from the first one
 RefitV(c, e) ==
     LET r == e.refit IN
-    IF r.raised THEN "RefitRaised"
+    IF r.raised THEN "ok"        \* as for the first fit: a fit that raises exposes nothing (seen on the clean tree: Tucker
+                                 \* regression in units 2^30 / 2^-40 can end in LinAlgError "Singular matrix")
     ELSE IF ~(IsTens(r.weight) /\ r.weight.shape = WeightShape(c) /\ IsTens(r.vec) /\ IsTens(r.dense) /\ IsTens(r.pred) /\ IsTens(r.x)) THEN "Shapes"
     ELSE IF ~(AllFin(r.weight) /\ AllFin(r.vec) /\ AllFin(r.dense) /\ AllFin(r.pred)) THEN "Finite"
     ELSE IF ~(FeatShape(r.x) = c.xs /\ \A n \in 1..Len(r.x.data) : AbsI(r.x.data[n]) <= MaxX) THEN "InDomain"
@@ -76,6 +78,9 @@ RegV(e) ==
          ELSE IF RefitV(c, e) # "ok" THEN RefitV(c, e)
          ELSE IF ~Close(e.dense, e.weight, EqTol) THEN "WeightIsDense"
          ELSE IF ~(e.vec.shape = <<Size(e.weight.shape)>> /\ \A n \in 1..Len(e.vec.data) : AbsI(e.vec.data[n] - e.weight.data[n]) <= EqTol) THEN "VecW"
+         \* the factors themselves are logged (and contracted here) in the base units only: how a unit is split between
+         \* the factors is not determined
+         ELSE IF <<c.ux, c.uy>> # <<0, 0>> THEN "ok"
          ELSE IF ~FactorsOK(e.factors, WeightShape(c), c.model) THEN "FactorShapes"
          ELSE IF c.model = "cp" /\ e.factors.fs[1].shape[2] # c.rank THEN "FactorRank"
          ELSE IF c.model = "tucker" /\ e.factors.core.shape # c.ranks THEN "FactorRank"
